@@ -510,16 +510,7 @@ pub fn run(report: &Report, thorough: bool) -> Evidence {
                     if failed {
                         continue;
                     }
-                    // a last update-engine to the configuration under test, the file untouched since the previous one
-                    {
-                        let up = Ev::Update(Box::new(o.clone()));
-                        evs.push(up.clone());
-                        if let Err(f) = live.apply(&up) {
-                            report.add(fail_violation("C10", &f, &o, &evs).feat("fault", format!("auto-correct file states {:?} then {:?}", init, seqs[si])));
-                            continue;
-                        }
-                    }
-                    let got = run_session(&mut live, &[Step::Type(0), Step::Type(2), Step::Type(3), Step::Type(4), Step::Type(5)]);
+                    let words = [Step::Type(0), Step::Type(2), Step::Type(3), Step::Type(4), Step::Type(5)];
                     let mut fresh = match Ctx::new(&o) {
                         Ok(c) => c,
                         Err(p) => {
@@ -528,24 +519,43 @@ pub fn run(report: &Report, thorough: bool) -> Evidence {
                         }
                     };
                     fresh.with_pre = false;
-                    let exp = run_session(&mut fresh, &[Step::Type(0), Step::Type(2), Step::Type(3), Step::Type(4), Step::Type(5)]);
-                    match (got, exp) {
-                        (Ok(g), Ok(x)) => {
-                            if g.rends != x.rends {
-                                let describe = |k: usize| states[k].map(|b| String::from_utf8_lossy(b).to_string()).unwrap_or("<absent>".into());
-                                report.add(
-                                    Violation::new("C10", "damaged-file-not-treated-as-absent-after-reload", "live-fault:reload")
-                                        .opts(&o)
-                                        .events(&evs)
-                                        .feat("fault", format!("auto-correct file: {} at creation, then {:?}", describe(init), seqs[si].iter().map(|&k| describe(k)).collect::<Vec<_>>()))
-                                        .detail(format!("user auto-correct file {} at creation, then (each followed by update-engine) {:?}: typing renders {:?} but a new context over the final file renders {:?}", describe(init), seqs[si].iter().map(|&k| describe(k)).collect::<Vec<_>>(), g.rends.iter().map(|r| r.to_json()).collect::<Vec<_>>(), x.rends.iter().map(|r| r.to_json()).collect::<Vec<_>>())),
-                                );
+                    let exp = run_session(&mut fresh, &words);
+                    let describe = |k: usize| states[k].map(|b| String::from_utf8_lossy(b).to_string()).unwrap_or("<absent>".into());
+                    let mut compare = |live: &mut Ctx, evs: &[Ev], when: &str| {
+                        let got = run_session(live, &words);
+                        match (&got, &exp) {
+                            (Ok(g), Ok(x)) => {
+                                if g.rends != x.rends {
+                                    report.add(
+                                        Violation::new("C10", "damaged-file-not-treated-as-absent-after-reload", "live-fault:reload")
+                                            .opts(&o)
+                                            .events(evs)
+                                            .feat("fault", format!("auto-correct file: {} at creation, then {:?}", describe(init), seqs[si].iter().map(|&k| describe(k)).collect::<Vec<_>>()))
+                                            .detail(format!("user auto-correct file {} at creation, then (each followed by update-engine) {:?}; {}: typing renders {:?} but a new context over the final file renders {:?}", describe(init), seqs[si].iter().map(|&k| describe(k)).collect::<Vec<_>>(), when, g.rends.iter().map(|r| r.to_json()).collect::<Vec<_>>(), x.rends.iter().map(|r| r.to_json()).collect::<Vec<_>>())),
+                                    );
+                                }
+                            }
+                            (Err((e, f)), _) | (_, Err((e, f))) => {
+                                report.add(fail_violation("C10", f, &o, e).feat("fault", "live auto-correct file changes".to_string()));
                             }
                         }
-                        (Err((e, f)), _) | (_, Err((e, f))) => {
-                            report.add(fail_violation("C10", &f, &o, &e).feat("fault", "live auto-correct file changes".to_string()));
+                    };
+                    // (i) right after the last of the alternating update-engine calls, when that one switched to the configuration under
+                    // test (whatever a skipped re-load leaves behind must show before anything heals it)
+                    let last_mid_is_target = seqs[si].is_empty() || (seqs[si].len() - 1 + init) % 2 == 1;
+                    if last_mid_is_target {
+                        compare(&mut live, &evs, "after the last update-engine");
+                    }
+                    // (ii) after one more update-engine to the configuration under test, the file untouched since the previous one
+                    {
+                        let up = Ev::Update(Box::new(o.clone()));
+                        evs.push(up.clone());
+                        if let Err(f) = live.apply(&up) {
+                            report.add(fail_violation("C10", &f, &o, &evs).feat("fault", format!("auto-correct file states {:?} then {:?}", init, seqs[si])));
+                            continue;
                         }
                     }
+                    compare(&mut live, &evs, "after one more update-engine with the file untouched");
                 }
             },
             |_| (),
